@@ -95,7 +95,7 @@ def prepare(ver, wd):
     return _cache[key]
 
 
-WHY_OF = {"C08": {"bytes"}, "C07": {"len"}, "C09": {"dec:same", "dec:wider", "dec:indef", "dec:badtag", "panic"}, "C10": {"dec:fwd", "dec:bwd", "dec:xfwd", "dec:xbwd"}}
+WHY_OF = {"C08": {"bytes"}, "C07": {"len"}, "C09": {"dec:same", "dec:wider", "dec:indef", "dec:badtag", "dec:missing", "dec:unkvar", "panic"}, "C10": {"dec:fwd", "dec:bwd", "dec:xfwd", "dec:xbwd"}}
 
 
 def replay(ver, wd, only):
@@ -150,12 +150,16 @@ ASSUMPTIONS = ["TLC evaluates the TLA+ operators correctly",
 RULE = {
     "C08": "TLC enumerates schemas (one-field structs over every field type x optional x tag x gap x encoding x shape, three-field structs over index patterns with gaps and all "
            "presence patterns, skipped fields, transparent newtypes, custom nil-aware codecs, enums with unit/tuple/named variants and tags/encodings at both levels, index_only, "
-           "25-field structs) x all values; each schema becomes a real #[derive(Encode)] type and its output must equal the documented bytes DocEnc",
+           "25-field structs, optional fields spelled Box<Option<T>> / through a type alias / through a type parameter, borrowing field types) x all values; each schema "
+           "becomes a real #[derive(Encode)] type and its output must equal the documented bytes DocEnc; seeded random schemas from a wider grammar (up to 7 fields, arbitrary "
+           "indices and tags, every field type, enums with up to 5 variants) are recorded and judged by TLC (Trace_Derive)",
     "C09": "for the same schemas x values the documented bytes, the same with a wider container head and as an indefinite-length container must decode to the value (skipped "
-           "fields at default) consuming the input exactly",
+           "fields at default) consuming the input exactly, with every field of a borrowing type (&str, &ByteSlice, &[u8], Cow marked b) pointing into the input; a wrong or "
+           "missing tag at any tag site, a missing mandatory field and an unknown top-level variant must be errors; random schemas as for C08",
     "C10": "pairs (writer, reader) related by the documented compatible changes (drop an optional field, add an optional field at a gap or new index with or without tag, two "
            "changes in thorough, more variants / unit-to-struct variants of an enum used as an optional field) x all writer values, both directions: the reader must obtain "
-           "the projected value; missing mandatory fields must fail",
+           "the projected value - from the documented bytes and from what the writer type's real encoder writes; missing mandatory fields must fail; random (writer, reader) "
+           "pairs from the wider grammar related by one to three compatible changes are recorded and judged by TLC",
 }
 
 
